@@ -47,6 +47,15 @@ def r_guards(ctx, model):
                        f"{'raises ' + str(res[1]) if got_raise else 'accepts'} (want {'refusal' if want_raise else 'acceptance'})")
         if got_raise and dict(res[2].cols) != res[3]:
             untouched.append(f"rank={rank} resid={resid}: columns changed before the refusal")
+    # the same table with every one of the 21 components supplied (no shortcut past the consistency test)
+    for rank, resid, ig_rank, ig_res in ((21, 1000, False, False), (21, 0, False, False), (21, 1000, False, True)):
+        n += 1
+        sc = Scenario(system="cubic", columns=["V"] + SYMS21, rank=rank, resid=resid, kwargs={"ignore_rank": ig_rank, "ignore_residuals": ig_res})
+        res = run_fill(model, sc, ctx)
+        want_raise = (resid == 1000 and not ig_res)
+        if (res[0] == "raise") != want_raise or (res[0] == "ok" and sc.lstsq is None):
+            bad.append(f"complete table, resid={resid} ignore_residuals={ig_res}: {'raises' if res[0] == 'raise' else 'accepts'}"
+                       f"{' without solving' if sc.lstsq is None else ''} (want {'refusal' if want_raise else 'a solve'})")
     ctx.check(not bad, f"refusal decision table ({n} cells)", w,
               expected="raise Warning iff (rank < 21 and not ignore_rank) or (residual > residual_atol and not ignore_residuals)",
               found="; ".join(bad[:4]) or f"{n} cells as required",
